@@ -637,10 +637,8 @@ func (in *flowInterp) call(fr *fframe, n *a.Expr) *fval {
 				panic(&fUnsupported{"coroutine call inside a fact"})
 			}
 			for io.ri >= io.wi {
-				if io.closed {
-					// "#unexpected EOF": the error status propagates through every caller
-					panic(&fErrorStatus{"#unexpected EOF"})
-				}
+				// the generated C suspends with "$short read" whether or not the reader is
+				// closed (the caller decides what an empty closed reader means)
 				in.suspend("$short read")
 				io = in.ioOf(fr, recv) // the caller may have passed another buffer
 			}
